@@ -1170,9 +1170,24 @@ R"(
 #endif
 
     volatile uint64_t now;
+#ifdef PHOTON_VERIF
+    // verification hooks (E2 deterministic replay): a virtual clock and an idle callback,
+    // both installed by the test harness; nullptr (the default) leaves the behaviour unchanged
+    extern "C" {
+    uint64_t (*photon_verif_clock)() = nullptr;
+    int (*photon_verif_idle)(uint64_t usec, uint64_t next_wakeup) = nullptr;
+    }
+#endif
     static std::atomic<pthread_t> ts_updater(0);
     static inline uint64_t update_now()
     {
+#ifdef PHOTON_VERIF
+        if (photon_verif_clock) {
+            auto _vnow = photon_verif_clock();
+            now = _vnow;
+            return _vnow;
+        }
+#endif
 #if defined(__x86_64__) && defined(__linux__) && defined(ENABLE_MIMIC_VDSO)
         if (likely(__mimic_vdso_time_x86))
             return photon::now = __mimic_vdso_time_x86.get_now();
@@ -1211,6 +1226,12 @@ R"(
     }
     static uint32_t last_tsc = 0;
     static inline bool if_update_now(bool accurate = false) {
+#ifdef PHOTON_VERIF
+        if (photon_verif_clock) {
+            update_now();
+            return true;
+        }
+#endif
 #if defined(__x86_64__) && defined(__linux__) && defined(ENABLE_MIMIC_VDSO)
         if (likely(__mimic_vdso_time_x86)) {
             return photon::now = __mimic_vdso_time_x86.get_now(accurate);
@@ -2114,6 +2135,10 @@ insert_list:
             auto& sleepq = vcpu->sleepq;
             if (!sleepq.empty()) usec = min(usec,
                 sat_sub(sleepq.front()->ts_wakeup, now));
+#ifdef PHOTON_VERIF
+            if (!(photon_verif_idle && photon_verif_idle(usec,
+                    sleepq.empty() ? (uint64_t)-1 : sleepq.front()->ts_wakeup)))
+#endif
             vcpu->master_event_engine->wait_and_fire_events(usec);
             last_idle = now;
         }
